@@ -100,9 +100,7 @@ Theorem C08_output_mapping (a abar : 'cV[F]_n) (Q : 'M[F]_n) (i : 'I_(length (so
       xi_med s (a - abar) = xi_med s a - xi_med s abar &
       let U := mc_rows (so_curr_xi s) (so_Ua s) in
       (U *m Q *m U^T) i i = (so_Ua s *m Q *m (so_Ua s)^T) r r].
-Proof.
-move=> E; split; [exact: xi_med_rows | exact: xi_med_entry | exact: xi_med_sub | exact: xi_var_entry].
-Qed.
+Proof. exact: output_mapping. Qed.
 
 End Mapping.
 
